@@ -47,7 +47,7 @@ func init() {
 }
 
 func sigArmAllow() []string {
-	return []string{"sigsrv/", "bl:bifrost/signaling/rpc/client/client.go"}
+	return []string{"sigsrv/", "bl:bifrost/signaling/rpc/client/client.go", "go:signaling/rpc/"}
 }
 
 func (w *c23World) Setup(s *dsim.Sim) {
